@@ -90,6 +90,7 @@ type Exec struct {
 	envStack     []VFunc
 	envRunning   bool
 	idleTicks    int
+	prefer       *Term
 	coros        []*coro
 	curCoro      *coro
 	progress     int
@@ -173,6 +174,7 @@ func (e *Exec) runPath(fn *ssa.Function, prefix []bool) {
 	}
 	arrIDs = map[*Cell]int{}
 	onceDone = map[*Cell]bool{}
+	builders = map[*Cell]string{}
 	globals = map[*ssa.Global]*Cell{}
 	cellOwner = map[*Cell]*ssa.Global{}
 	e.regions = map[string]Term{}
@@ -338,7 +340,22 @@ func (e *Exec) obligeX(cond Term, kind, msg string, assumeAfter bool) {
 		key := kind + "|" + msg
 		if !e.seenFind[key] {
 			e.seenFind[key] = true
-			m := e.sol.GetValues(e.pathSyms)
+			var m map[string]string
+			if e.prefer != nil {
+				// a more telling counterexample if there is one (e.g. a large allocation)
+				e.sol.Push()
+				e.sol.Assert(*e.prefer)
+				if e.sol.Check() == "sat" {
+					m = e.sol.GetValues(e.pathSyms)
+				}
+				e.sol.Pop()
+				if m == nil && e.sol.Check() != "sat" {
+					panic("inconclusive obligation: model lost " + msg)
+				}
+			}
+			if m == nil {
+				m = e.sol.GetValues(e.pathSyms)
+			}
 			e.findings = append(e.findings, Finding{Kind: kind, Msg: msg, Model: m, Path: append([]bool{}, e.decisions...)})
 		}
 	} else if r != "unsat" {
@@ -865,27 +882,31 @@ func (e *Exec) eval(fr *frame, in ssa.Value) Value {
 			c = Resize(c, 64, isSigned(in.Cap.Type()))
 		}
 		if !l.Const || !c.Const {
-			// concretise a symbolic size by forking over 0..bound; larger sizes are outside the bound
-			same := in.Len == in.Cap
 			// allocation size depends on input: it must stay within the harness's bound
-			// (memory proportional to the input, not to a length claimed inside it)
-			e.oblige(And(tLe(i64(0), l), tLe(l, i64(e.makeSliceMax))), "panic", "allocation size bounded by the input size in "+fr.fn.String())
-			found := false
-			for k := 0; k <= e.makeSliceMax; k++ {
-				if e.decide(Eq(l, idxC(l, k))) {
-					l = idxC(l, k)
-					found = true
-					break
+			// (memory proportional to the input, not to a length claimed inside it); a
+			// symbolic size is then made concrete by forking over 0..bound
+			same := in.Len == in.Cap
+			fix := func(t Term) Term {
+				if t.Const {
+					return t
 				}
-			}
-			if !found {
+				big := tLe(i64(1<<20), t)
+				e.prefer = &big
+				e.oblige(And(tLe(i64(0), t), tLe(t, i64(e.makeSliceMax))), "panic", "allocation size bounded by the input size in "+fr.fn.String())
+				e.prefer = nil
+				for k := 0; k <= e.makeSliceMax; k++ {
+					if e.decide(Eq(t, idxC(t, k))) {
+						return idxC(t, k)
+					}
+				}
 				e.unwound = append(e.unwound, fmt.Sprintf("MakeSlice size > %d in %s", e.makeSliceMax, fr.fn.String()))
 				panic(pathEnd{"BOUND MakeSlice"})
 			}
+			l = fix(l)
 			if same {
 				c = l
-			} else if !c.Const {
-				e.fail("MakeSlice symbolic cap")
+			} else {
+				c = fix(c)
 			}
 		}
 		n := int(c.U.Int64())
@@ -1696,6 +1717,7 @@ func resetWorld() {
 	cellOwner = map[*Cell]*ssa.Global{}
 	arrIDs = map[*Cell]int{}
 	onceDone = map[*Cell]bool{}
+	builders = map[*Cell]string{}
 	errCounter = 0
 }
 
